@@ -676,11 +676,11 @@ func genSizes(c *ctx, emit func(string)) {
 			emit(fmt.Sprintf("#big %x", sz))
 			emit(fmt.Sprintf("#bigmid %x", sz))
 		}
-		// WAL level: payloads whose ENCODING crosses the limit, and a batch above 64 MiB
-		// that must survive a reopen of the unsealed tail
-		for _, k := range []string{"data-8", "data", "ext", "batch"} {
-			emit("#walbig " + k)
-		}
+	}
+	// WAL level (every tier, ~7 s): payloads whose ENCODING crosses the limit, and a batch
+	// above 64 MiB that must survive a reopen of the unsealed tail
+	for _, k := range []string{"data-8", "data", "ext", "batch"} {
+		emit("#walbig " + k)
 	}
 }
 
